@@ -385,7 +385,8 @@ func (c *sumCtx) call(t ssa.CallInstruction) {
 		// arguments may be written (module structs assumed untouched by dynamic callees, as in havocPointeesPolicy)
 		for _, a := range cc.Args {
 			m := map[string]Sort{}
-			v.modArgPolicy(a.Type(), m, true)
+			_, isLocal := a.(*ssa.Alloc)
+			v.modArgPolicy(a.Type(), m, !(isLocal && !cc.IsInvoke()))
 			c.record(c.origin(a), m)
 		}
 		return
@@ -718,6 +719,12 @@ func (v *Verifier) havocBySummary(s *State, fn *ssa.Function, prefix string, wit
 		is, _, ok := arrayParts(srt)
 		if !ok || is != SInt {
 			s.freshHeap(prefix, k, srt)
+			continue
+		}
+		if prefix == "Hgo!" {
+			// interference of another goroutine: what it writes only on objects of its own (allocated by it) cannot be
+			// observed by this goroutine except through memory both can see, which is unknown anyway
+			v.assumptions["objects a goroutine allocates for itself are not observed by its spawner (only memory visible to both is unknown at interference points)"] = true
 			continue
 		}
 		old := s.heapArr(k, srt)
